@@ -193,7 +193,8 @@ def tpi_family(versions=VERSIONS):
         signed["signatures"] = {"id.example": {"ed25519:0": base64.b64encode(sig).decode().rstrip("=")}}
         return signed
     for v in versions:
-        for case in ("valid", "valid-in-list", "target-banned", "no-signed", "no-token", "no-mxid", "mxid-mismatch", "no-event",
+        for case in ("valid", "valid-in-list", "valid-top-level-with-list", "valid-last-of-three", "wrong-key-in-both",
+                     "valid-list-only", "target-banned", "no-signed", "no-token", "no-mxid", "mxid-mismatch", "no-event",
                      "sender-mismatch", "bad-signature", "wrong-key", "signatures-not-object", "valid-sender-not-joined",
                      "tpi-null"):
             b = Builder(v)
@@ -209,6 +210,18 @@ def tpi_family(versions=VERSIONS):
             if case == "valid-in-list":
                 tpi_content = {"display_name": "b", "key_validity_url": "https://x", "public_key": other_pk,
                                "public_keys": [{"public_key": other_pk}, {"public_key": pk, "key_validity_url": "https://y"}]}
+            third_pk = base64.b64encode(ed25519.public_key(bytes([7]) * 32)).decode().rstrip("=")
+            if case == "valid-top-level-with-list":
+                # signed by the top-level key, which the list does not repeat
+                tpi_content["public_keys"] = [{"public_key": other_pk, "key_validity_url": "https://y"}]
+            if case == "valid-last-of-three":
+                tpi_content = {"display_name": "b", "key_validity_url": "https://x", "public_key": other_pk,
+                               "public_keys": [{"public_key": other_pk}, {"public_key": third_pk}, {"public_key": pk}]}
+            if case == "wrong-key-in-both":
+                tpi_content = {"display_name": "b", "key_validity_url": "https://x", "public_key": other_pk,
+                               "public_keys": [{"public_key": third_pk}, {"public_key": other_pk}]}
+            if case == "valid-list-only":
+                tpi_content = {"display_name": "b", "key_validity_url": "https://x", "public_key": pk, "public_keys": []}
             if case == "wrong-key":
                 tpi_content["public_key"] = other_pk
             if case != "no-event":
@@ -234,6 +247,10 @@ def tpi_family(versions=VERSIONS):
 
 def ordinary_family(versions=VERSIONS):
     kinds = [("m.room.message", None), ("m.room.name", ""), ("org.custom.state", "@alice:hs1.org"), ("org.custom.state", BOB),
+             # state keys that start with '@' without being the sender's (or anybody's) user ID
+             ("org.custom.state", "@alice"), ("org.custom.state", "@"), ("org.custom.state", "@alice:"),
+             ("org.custom.state", "@alice:hs1.org/"), ("org.custom.state", "@alice:hs1.org_profile"),
+             ("org.custom.state", "@Alice:hs1.org"), ("org.custom.state", " @alice:hs1.org"), ("m.room.name", "@bob:hs2.org_x"),
              ("m.room.third_party_invite", "tok"), ("m.room.aliases", HS1), ("m.room.aliases", HS2), ("m.room.aliases", None),
              ("m.room.redaction", None), ("m.room.topic", "")]
     for v in versions:
